@@ -17,7 +17,7 @@ META = {
              "non-trivial = (by the model) the last-ending operation of some (sub-)circuit is not a relation leaf or the earliest-starting one is not a head"),
     "assumptions": ["reference model qv/model.py; span computed from the library's own reported operation times at the same step as well"],
     "floors": {
-        "quick": {"late_heads_on_group_related_blocks": 1000, "rereads_after_temporary_override": 12000, "growth_first_add_rereads": 6000, "growth_of_empty_block_rereads": 500, "durations_compared": 40000, "growth_rereads": 3000, "forms_compared": 20000, "relations_to_former_blocks_checked": 300, "group_follower_checks": 2000, "registry_reassignments": 10000, "follower_checks": 5000, "empty_circuits": 1000, "label_non-leaf-last-end": 1000, "label_early-start": 3000, "label_nested-block-early-start": 500},
+        "quick": {"late_heads_on_group_related_blocks": 1000, "rereads_after_temporary_override": 12000, "growth_first_add_rereads": 6000, "growth_of_empty_block_rereads": 500, "durations_compared": 40000, "growth_rereads": 3000, "deep_growth_rereads": 3000, "deep_growth_follower_checks": 2000, "forms_compared": 20000, "relations_to_former_blocks_checked": 300, "group_follower_checks": 2000, "registry_reassignments": 10000, "follower_checks": 5000, "empty_circuits": 1000, "label_non-leaf-last-end": 1000, "label_early-start": 3000, "label_nested-block-early-start": 500},
         "thorough": {"durations_compared": 500000, "follower_checks": 50000, "empty_circuits": 10000},
     },
 }
@@ -190,6 +190,39 @@ def check_program(prog: Dict[str, Any], acc: Acc, flags=None):
             elif abs(rep3 - span3) > TOL:
                 acc.finding("duration/span-after-growth", "duration of the circuit after a sub-circuit grew is not the span of the reported operation times", case,
                             {"duration": rep3, "span": span3})
+            else:
+                # ---- ... and growth TWO levels deep: a long operation on a qubit nothing uses yet is added to a block nested inside
+                #      this sub-circuit; the duration is read before and after a listing, and an operation added to the circuit on that
+                #      qubit afterwards follows the grown sub-circuit, i.e. starts when the late operation has ended (the mechanism of
+                #      seeded change C03-r15: channels of an enclosing block not renewed when a block inside it grows)
+                deep = [b for _, b in snap.walk_blocks(h)]
+                if deep:
+                    late = bp.make_op({"k": "Wait", "q": [18], "dur": 11}, ctx, [built.top])
+                    deep[-1].add(late)
+                    acc.count("deep_growth_rereads")
+                    rep4 = snap.raw_value(lambda: float(top.duration))
+                    shd4 = snap.shadow_value(lambda: float(top.duration))
+                    ops5 = top.operations
+                    raw5 = snap.raw_times(ops5)
+                    span5 = max(e for _, e in raw5) - min(s0 for s0, _ in raw5)
+                    rep5 = snap.raw_value(lambda: float(top.duration))
+                    if abs(rep4 - shd4) > TOL:
+                        acc.finding("stale-memo/after-growth", "duration reported after a block two levels deep grew differs from the memo-free evaluation", case,
+                                    {"duration_reported": rep4, "duration_memo_free": shd4, "after": "deep growth"})
+                    elif abs(rep5 - rep4) > TOL:
+                        acc.finding("duration/changes-with-listing", "the duration reported after a block two levels deep grew changes when the operations are listed", case,
+                                    {"before_listing": rep4, "after_listing": rep5})
+                    elif abs(rep5 - span5) > TOL:
+                        acc.finding("duration/span-after-growth", "duration of the circuit after a block two levels deep grew is not the span of the reported operation times", case,
+                                    {"duration": rep5, "span": span5})
+                    elif label == "plain":
+                        follower = top.add(bp.make_op({"k": "Wait", "q": [18], "dur": 1}, ctx, [built.top]))
+                        acc.count("deep_growth_follower_checks")
+                        f_start = snap.shadow_value(lambda: float(follower.start_time))
+                        l_end = snap.shadow_value(lambda: float(late.end_time))
+                        if f_start < l_end - TOL:
+                            acc.finding("follower/starts-inside-grown-block", "an operation added on a qubit that only a block two levels deep occupies starts before that block's content has ended",
+                                        case, {"follower_start": f_start, "late_operation_end": l_end})
             break
         # ---- the same program unrolled, and flattened: duration == span of the reported times, and whatever follows a group of
         #      operations (repeated copies, flattened blocks) starts after ALL of them have ended
